@@ -76,7 +76,17 @@ func cmdRun(args []string) int {
 	}
 	defer of.Close()
 	var mu sync.Mutex
-	write := func(obs J) {
+	var write func(obs J)
+	write = func(obs J) {
+		// a case may observe more than one step (the second render of a "then" case): one record each
+		if extra, ok := obs["extra"].([]any); ok {
+			delete(obs, "extra")
+			defer func() {
+				for _, e := range extra {
+					write(e.(J))
+				}
+			}()
+		}
 		b, err := json.Marshal(obs)
 		if err != nil {
 			b, _ = json.Marshal(J{"id": obs["id"], "outcome": "skip", "msg": "unencodable observation: " + err.Error()})
